@@ -69,6 +69,9 @@ type buildStats struct {
 // links everything into one driver binary.
 func buildDriver(e *Env, specs []PkgSpec, race bool) (string, string, []PkgSpec, buildStats, error) {
 	st := buildStats{Drawn: len(specs), DroppedWhy: map[string]int{}}
+	// the goag command built from the same tree: a quarter of the packages is generated
+	// through it ("" = not available: everything goes through the library entry point)
+	cliPath, _ := cliBinaryShared(e)
 	root := filepath.Join(e.Scratch, "drv-"+e.ID)
 	os.RemoveAll(root)
 	os.MkdirAll(filepath.Join(root, "pkgs"), 0o755)
@@ -121,6 +124,7 @@ func buildDriver(e *Env, specs []PkgSpec, race bool) (string, string, []PkgSpec,
 		go func(w int, idx []int) {
 			defer wg.Done()
 			cmd := exec.Command(self, "prep", root, inFile, outFile)
+			cmd.Env = append(os.Environ(), "VERIF_CLI="+cliPath)
 			out, err := cmd.CombinedOutput()
 			var rs []result2
 			if bs, rerr := os.ReadFile(outFile); rerr == nil {
@@ -378,12 +382,34 @@ func cmdPrep(root, inFile, outFile string) int {
 		os.MkdirAll(wd, 0o755)
 		os.WriteFile(filepath.Join(root, "specs", s.Name+".json"), raw, 0o644)
 		var oc inproc.Outcome
-		if s.Embed != nil {
+		via := "in-process"
+		cli := os.Getenv("VERIF_CLI")
+		switch {
+		case s.Embed != nil:
 			oc = inproc.GenerateRaw(raw, []byte(*s.Embed), cfg, out)
 			os.WriteFile(filepath.Join(root, "specs", s.Name+".embed"), []byte(*s.Embed), 0o644)
-		} else {
+		case cli != "" && splitmix(uint64(len(s.Raw))+hashStr(s.Name))%4 == 0:
+			// a quarter of the packages is generated by the goag command itself (flags and
+			// config file as a user would pass them), not through the library entry point
+			via = "cli"
+			specFile := filepath.Join(wd, cfg.SpecName())
+			cfgFile := filepath.Join(wd, ".goag.yaml")
+			os.WriteFile(specFile, raw, 0o644)
+			if y := cfg.GoagYAML(); y != nil {
+				os.WriteFile(cfgFile, y, 0o644)
+			}
+			cmd := exec.Command(cli, cfg.CLIArgs(specFile, cfgFile, out)...)
+			cmd.Dir = wd
+			if cout, err := cmd.CombinedOutput(); err != nil {
+				oc.Err = fmt.Errorf("%v: %s", err, clipStr(string(cout), 300))
+			}
+		default:
 			oc = inproc.Generate(raw, cfg, wd, out)
 		}
+		if s.Meta == nil {
+			s.Meta = map[string]any{}
+		}
+		s.Meta["generated_via"] = via
 		if oc.Panic != "" || oc.Err != nil {
 			os.RemoveAll(out)
 			results = append(results, result2{false, "rejected: " + firstWords(fmtErr(oc.Err)+" "+oc.Panic, 12)})
